@@ -214,6 +214,17 @@ fn run_once(cmd: &mut Command, timeout: Duration) -> RunOut {
     let start = Instant::now();
     cmd.stdin(Stdio::null()).stdout(Stdio::piped()).stderr(Stdio::piped());
     cmd.env("RUST_BACKTRACE", "0");
+    // safety net: no child may take more than 24 GiB of address space (a runaway allocation loop
+    // in the program under test then fails its allocation and dies instead of exhausting the
+    // machine); far above anything these small inputs need
+    unsafe {
+        use std::os::unix::process::CommandExt;
+        cmd.pre_exec(|| {
+            let lim = libc::rlimit { rlim_cur: 24u64 << 30, rlim_max: 24u64 << 30 };
+            libc::setrlimit(libc::RLIMIT_AS, &lim);
+            Ok(())
+        });
+    }
     let mut child = match cmd.spawn() {
         Ok(c) => c,
         Err(e) => {
